@@ -177,6 +177,18 @@ CLAIMED = {
              'constrained builders reuse C03/C01/C02; strong duality observed only.',
         technique='Lean 4 proof (signomial algebra with symbolic coefficients) + model/implementation correspondence check',
         design_ref='DESIGN.md 4/C04'),
+    'C19': dict(
+        text='PARTIAL (the sign-based cover presolve is observed, not proved). Theorems about the Lean model of the SAGE row generators '
+             'with the five settings as inputs: compact and epigraph dual rows have the same feasible set (projection off the epigraph '
+             'variables), forced equality of the AGE sum is equivalent to the inequality form exactly because equality is only demanded '
+             'at reached indices, a trivial kernel forces nu = 0 (exact elimination), and soundness (C01/C02) holds for every settings '
+             'combination. The real constructors are run under all 32 settings (thorough) / 8 (quick), given globally and as per-constraint '
+             'override, with automatic / full / user covers, and cover helper + rows are compared with the model; ECOS values are '
+             'compared across the lattice.',
+        note='F16 and F7 repaired in /repo (fadbad9, e1a32de); F10 (default heuristic reduction turns a feasible conditional certificate '
+             'problem infeasible) is a recorded known finding; kernel_basis() itself (SVD/QR) is an input of the model.',
+        technique='Lean 4 proof (option equivalences on the row model, exp-cone monotonicity, exact rank) + model/implementation correspondence check across the option lattice',
+        design_ref='DESIGN.md 4/C19'),
 }
 
 NOT_YET = 'check not built yet in this session (planned, see DESIGN.md section 6); not claimed until its theorems and correspondence exist'
